@@ -50,7 +50,8 @@ class Result:
         self.branching_states = 0
         self.max_menu = 0
         self.max_tie = 0
-        self.terminals = {}      # final digest hex -> path
+        self.terminals = {}      # final digest hex -> path (at most max_terminal_paths kept)
+        self.terminal_digests = set()
         self.violations = []     # dicts
         self.facts = {}
         self.capped = None       # reason string when a cap was hit
@@ -63,13 +64,13 @@ class Result:
             'scenario': self.name, 'states': self.states, 'transitions': self.transitions,
             'branching_states': self.branching_states, 'max_menu': self.max_menu,
             'max_tie_group': self.max_tie,
-            'distinct_final_states': len(self.terminals), 'max_depth': self.max_depth,
+            'distinct_final_states': len(self.terminal_digests), 'max_depth': self.max_depth,
             'violations': len(self.violations), 'facts': self.facts, 'capped': self.capped,
             'wall_s': round(self.wall, 3)}
 
 
 def explore(world0, name='', max_states=200000, max_seconds=600.0, max_depth=4000,
-            seed=0, max_violations=40, stop_on_violation=False):
+            seed=0, max_violations=40, stop_on_violation=False, max_terminal_paths=5000):
     '''Depth-first search with state matching.  Returns a Result.'''
     t0 = time.time()
     res = Result(name)
@@ -113,9 +114,11 @@ def explore(world0, name='', max_states=200000, max_seconds=600.0, max_depth=400
                         raise Violation('termination', f'run did not finish within {max_depth} steps')
                     if w2.done():
                         w2.final()
-                        dg = w2.digest().hex()
-                        if dg not in res.terminals:
-                            res.terminals[dg] = p2
+                        dgb = w2.digest()
+                        if dgb not in res.terminal_digests:
+                            res.terminal_digests.add(dgb)
+                            if len(res.terminals) < max_terminal_paths:
+                                res.terminals[dgb.hex()] = p2
                             res.states += 1
                         continue
                 except Violation as v:
